@@ -125,25 +125,58 @@ func (l LinkD) link() trace.Link {
 	return out
 }
 
+// lend hands the SDK a caller-owned argument slice the way a hostile (or just
+// economical) caller would: the slice has spare capacity, and once the API
+// call has returned the caller scribbles over the WHOLE backing array. What
+// the span recorded must be what was passed at call time; an SDK that keeps an
+// alias of the argument instead of its own copy shows the scribble in the
+// exported span.
+type lender struct{ bufs [][]attribute.KeyValue }
+
+func (l *lender) lend(kvs []vk.KV) []attribute.KeyValue {
+	a := vk.ToAttrs(kvs)
+	buf := make([]attribute.KeyValue, len(a), len(a)+4)
+	copy(buf, a)
+	l.bufs = append(l.bufs, buf)
+	return buf
+}
+
+func (l *lender) scribble() {
+	for _, b := range l.bufs {
+		b = b[:cap(b)]
+		for i := range b {
+			b[i] = attribute.String("scribbled.by.caller", "after the call returned")
+		}
+	}
+	l.bufs = nil
+}
+
 func applyOp(span trace.Span, op Op) {
+	var l lender
+	defer l.scribble()
 	switch op.Op {
 	case "attrs":
-		span.SetAttributes(vk.ToAttrs(op.KVs)...)
+		span.SetAttributes(l.lend(op.KVs)...)
 	case "event":
-		opts := []trace.EventOption{trace.WithAttributes(vk.ToAttrs(op.KVs)...)}
+		opts := []trace.EventOption{trace.WithAttributes(l.lend(op.KVs)...)}
 		if op.HasKV2 {
-			opts = append(opts, trace.WithAttributes(vk.ToAttrs(op.KVs2)...))
+			opts = append(opts, trace.WithAttributes(l.lend(op.KVs2)...))
 		}
 		if op.HasTS {
 			opts = append(opts, trace.WithTimestamp(ts(op.TS)))
 		}
 		span.AddEvent(string(op.Text), opts...)
 	case "link":
+		// Link attributes are NOT lent: AddLink keeps the caller's
+		// Link.Attributes slice (observed on the pinned tree; the API does not
+		// promise a copy and the statement does not quantify over the caller
+		// re-using its memory), so scribbling over it would raise an alarm the
+		// property does not justify.
 		span.AddLink(op.Link.link())
 	case "error":
 		var opts []trace.EventOption
 		if len(op.KVs) > 0 {
-			opts = append(opts, trace.WithAttributes(vk.ToAttrs(op.KVs)...))
+			opts = append(opts, trace.WithAttributes(l.lend(op.KVs)...))
 		}
 		if op.Stack {
 			opts = append(opts, trace.WithStackTrace(true))
